@@ -11,6 +11,7 @@ Elements are reduced to what these functions read: the bounding box of the coord
 Thresholds are rationals p/q (DESIGN §3.4); ratios are returned as (numerator, denominator).
 -/
 import PagexmlModel.Basic.Err
+import PagexmlModel.Generated.C10
 
 namespace Pagexml.C10
 
@@ -154,18 +155,21 @@ def vOverlapRatio (a b : Elem) : Res (Int × Int) := do
   let cb ← crd b
   pyDiv o (max ca.b cb.b - min ca.t cb.t)
 
-def half : Thr := ⟨1, 2⟩
+/-- the default thresholds of is_horizontally_overlapping / is_vertically_overlapping,
+    REGENERATED from the source on every run (Generated/C10.lean) -/
+def hDefault : Thr := ⟨Generated.C10.hOverlapThr.1, Generated.C10.hOverlapThr.2⟩
+def vDefault : Thr := ⟨Generated.C10.vOverlapThr.1, Generated.C10.vOverlapThr.2⟩
 
-/-- `is_below(region1, region2, margin)` (default threshold 0.5 inside) -/
+/-- `is_below(region1, region2, margin)` (is_horizontally_overlapping with its default threshold) -/
 def isBelow (a b : Elem) (margin : Int) : Res Bool := do
-  if ← isHOverlapping a b half then
+  if ← isHOverlapping a b hDefault then
     let ca ← crd a
     let cb ← crd b
     return ca.t > cb.b - margin
   else return false
 
 def isNextTo (a b : Elem) (margin : Int) : Res Bool := do
-  if ← isVOverlapping a b half then
+  if ← isVOverlapping a b vDefault then
     let ca ← crd a
     let cb ← crd b
     return ca.l > cb.r - margin
